@@ -34,7 +34,9 @@ func (db *DB) tableAutoCompaction() {
 	}
 	zzCompactions++
 	if zzL0 >= zzTrig {
-		zzL0 -= 1 + vpChoose(zzL0)
+		d := vpNondetInt() // a level-0 compaction takes any non-empty set of the level-0 tables
+		vpAssume(d >= 1 && d <= zzL0)
+		zzL0 -= d
 		if vpChoose(2) == 1 {
 			zzDeep++
 		}
@@ -52,8 +54,11 @@ func (db *DB) tableRangeCompaction(level int, umin, umax []byte) error {
 }
 
 func zzTcomp(clients int, withClose bool) {
-	zzL0 = vpChoose(zzPause + 2)
-	zzDeep = vpChoose(2)
+	// symbolic counters: the loop's decisions on them are the solver's
+	zzL0 = vpNondetInt()
+	vpAssume(zzL0 >= 0 && zzL0 <= zzPause+1)
+	zzDeep = vpNondetInt()
+	vpAssume(zzDeep >= 0 && zzDeep <= 1)
 	zzCompactions = 0
 	s := &session{stor: newIStorage(storage.NewMemStorage())}
 	s.setOptions(&opt.Options{})
